@@ -12,12 +12,15 @@ Three parts:
      -maxwarn combinations; audit hook on every open-for-writing; exit code and directory
      contents compared with the model of the gate (driver_c07 `cli`) and judged by the oracle.
 """
+import os
+os.environ.setdefault('COVERAGE_CORE', 'sysmon')   # coverage.py through sys.monitoring: no per-line tracer cost
 import ast
 import io
 import logging
 import runpy
 import shutil
 import tempfile
+import time
 from common import *
 
 chk = Check('C07')
@@ -559,10 +562,15 @@ for ln, impl, mo, (cid, files, ops, out) in zip(lines, impls, models, meta):
     chk.case(cid, ln, impl, mo, errs, pre or inner, finding='F-C07-4' if (errs and sig4) else None)
 
 # ----------------------------------------------------------------------------
-# C. the CLI gate
+# C. the CLI: gate and set of output files
 # ----------------------------------------------------------------------------
 import hashlib as _hl
-from vermouth.log_helpers import CountingHandler, ignore_warnings_and_count
+import multiprocessing
+import stat
+import vermouth.log_helpers as LH
+import vermouth.gmx.topology as GT
+import vermouth.dssp.dssp as DS
+from vermouth.log_helpers import CountingHandler
 
 AUDIT = {'on': False, 'events': [], 'finalising': False}
 
@@ -591,6 +599,13 @@ M2PATH = os.path.join(REPO, 'bin', 'martinize2')
 M2 = runpy.run_path(M2PATH, run_name='verif_m2')
 logging.getLogger('vermouth').handlers[:] = []
 T0 = os.path.join(REPO, 'vermouth', 'tests', 'data', 'integration_tests', 'tier-0')
+DSSP_TMP_RE = re.compile(r'dssp_in_.*\.pdb')
+try:
+    import mdtraj  # noqa
+    HAVE_MDTRAJ = True
+except Exception:  # noqa
+    HAVE_MDTRAJ = False
+    chk.notes.append('mdtraj not importable: the -dssp (mdtraj) runs, F-C07-2 included, were not made')
 
 
 def sha(b):
@@ -598,15 +613,18 @@ def sha(b):
 
 
 def run_cli(argv, pre):
-    """Run bin/martinize2 in-process in a fresh directory holding the files `pre` (name -> bytes)."""
+    """Run bin/martinize2 in-process in a fresh directory holding the files `pre` (name -> bytes).
+    Observation hooks (none of them changes a result): DeferredFileWriter.open/.write, the gate's call of
+    ignore_warnings_and_count, the entry of write_gmx_topology, run_dssp and run_mdtraj, and the audit hook."""
     d = tempfile.mkdtemp(dir=SCRATCH, prefix='run_')
     for n, c in pre.items():
         with open(os.path.join(d, n), 'wb') as f:
             f.write(c)
     W = DeferredFileWriter()
     W.close()
-    rec = {'opens': [], 'gate': None}
+    rec = {'opens': [], 'gate': None, 'gate_leftover': None, 'gate_entries': None, 'top': None, 'dssp': [], 'gate_calls': 0}
     orig_open, orig_write = DeferredFileWriter.open, DeferredFileWriter.write
+    orig_iwc, orig_top, orig_rd, orig_rm = LH.ignore_warnings_and_count, GT.write_gmx_topology, DS.run_dssp, DS.run_mdtraj
 
     def pending_snapshot():
         return [(os.path.relpath(str(fp), d), mode_kind(m), sha(open(tp, 'rb').read())) for tp, fp, m in W.open_files]
@@ -621,14 +639,45 @@ def run_cli(argv, pre):
         AUDIT['finalising'] = True
         return orig_write(self)
 
+    def iwc_rec(counter, specifications, *a, **k):
+        res = orig_iwc(counter, specifications, *a, **k)
+        rec['gate_calls'] += 1
+        rec['gate_leftover'] = res
+        rec['gate_entries'] = [[lvl, typ, cnt] for lvl, dd in counter.counts.items() for typ, cnt in dd.items()]
+        return res
+
+    def top_rec(system, top_path, *a, **k):
+        keys = [key for key in ('atomtypes', 'nonbond_params') if key in system.gmx_topology_params]
+        rec['top'] = {'moltypes': [str(m.meta.get('moltype')) for m in system.molecules], 'keys': keys,
+                      'itp_paths': k.get('itp_paths')}
+        return orig_top(system, top_path, *a, **k)
+
+    def chains_of(system):
+        out = []
+        for molecule in system.molecules:
+            first = next(iter(molecule.nodes), None)
+            ch = molecule.nodes[first].get('chain') if first is not None else None
+            if ch is not None and ch not in out:
+                out.append(ch)
+        return out
+
+    def rd_rec(system, *a, **k):
+        rec['dssp'].append(['exe', chains_of(system)])
+        return orig_rd(system, *a, **k)
+
+    def rm_rec(system, *a, **k):
+        rec['dssp'].append(['mdtraj', chains_of(system)])
+        return orig_rm(system, *a, **k)
+
     lg = logging.getLogger('vermouth')
     lg.handlers[:] = []
     old = (sys.argv, sys.stderr, sys.stdout, os.getcwd())
     sys.argv, sys.stderr, sys.stdout = ['martinize2'] + argv, io.StringIO(), io.StringIO()
     os.chdir(d)
     DeferredFileWriter.open, DeferredFileWriter.write = open_rec, write_rec
+    LH.ignore_warnings_and_count, GT.write_gmx_topology, DS.run_dssp, DS.run_mdtraj = iwc_rec, top_rec, rd_rec, rm_rec
     AUDIT['events'], AUDIT['finalising'], AUDIT['on'] = [], False, True
-    code, exited, raw_code = 0, False, None
+    code, exited, raw_code, exc = 0, False, None, ''
     try:
         runpy.run_path(M2PATH, run_name='__main__')
     except SystemExit as e:
@@ -638,9 +687,11 @@ def run_cli(argv, pre):
         code = (e.code & 0xFF) if isinstance(e.code, int) else (0 if e.code is None else 1)
     except BaseException as e:  # noqa
         code = 'exception:%s' % type(e).__name__
+        exc = str(e)[:300]
     finally:
         AUDIT['on'] = False
         DeferredFileWriter.open, DeferredFileWriter.write = orig_open, orig_write
+        LH.ignore_warnings_and_count, GT.write_gmx_topology, DS.run_dssp, DS.run_mdtraj = orig_iwc, orig_top, orig_rd, orig_rm
         log_err = sys.stderr.getvalue()
         sys.argv, sys.stderr, sys.stdout = old[:3]
         os.chdir(old[3])
@@ -652,15 +703,19 @@ def run_cli(argv, pre):
     counters = [h for h in lg.handlers if isinstance(h, CountingHandler)]
     entries = [[lvl, typ, cnt] for h in counters[:1] for lvl, dd in h.counts.items() for typ, cnt in dd.items()]
     lg.handlers[:] = []
+    left_pending = len(W.open_files)
     W.close()
     after = snapshot_dir(d)
+    subdirs = sorted(n for n in os.listdir(d) if os.path.isdir(os.path.join(d, n)))
     events = [(os.path.realpath(p) if os.path.isabs(p) else os.path.realpath(os.path.join(d, p)), m, fin)
               for p, m, fin in AUDIT['events']]
     inside = [(os.path.relpath(p, os.path.realpath(d)), m, fin) for p, m, fin in events
               if p.startswith(os.path.realpath(d) + os.sep)]
     shutil.rmtree(d, ignore_errors=True)
-    return {'code': code, 'exited': exited, 'raw_code': raw_code, 'after': after, 'entries': entries, 'opens': rec['opens'], 'gate': rec['gate'],
-            'finalised': finalised, 'inside': inside, 'counter': counters[0] if counters else None, 'log': log_err}
+    rec.update({'code': code, 'exited': exited, 'raw_code': raw_code, 'after': after, 'entries': entries,
+                'finalised': finalised, 'inside': inside, 'counter': counters[0] if counters else None,
+                'log': log_err, 'exc': exc, 'subdirs': subdirs, 'left_pending': left_pending})
+    return rec
 
 
 def leftover_oracle(entries, specs, level=logging.WARNING):
@@ -686,11 +741,21 @@ def leftover_oracle(entries, specs, level=logging.WARNING):
     return total + max(0, rest - blanket)
 
 
+# ---- inputs -------------------------------------------------------------------------------------
+INPUTS = os.path.join(SCRATCH, 'inputs')
+os.makedirs(INPUTS, exist_ok=True)
+PROTS = ['mini-protein1_betasheet', 'dipro-termini', 'mini-protein2_helix', 'mini-protein3_trp-cage']
+
+
+def aa(prot):
+    return os.path.join(T0, prot, 'aa.pdb')
+
+
 def altloc_input(prot, n=1):
     """copy of the test structure with `n` alternate-location-B records, each of which gives one
     'pdb-alternate' warning, logged before every other warning of the run (n = 1: after the first CA;
     otherwise spread evenly over all ATOM records)"""
-    lines = open(os.path.join(T0, prot, 'aa.pdb')).readlines()
+    lines = open(aa(prot)).readlines()
     out = []
     if n == 1:
         done = False
@@ -708,104 +773,64 @@ def altloc_input(prot, n=1):
                 copies = n // natoms + (1 if k < n % natoms else 0)
                 out.extend([l[:16] + 'B' + l[17:]] * copies)
                 k += 1
-    path = os.path.join(SCRATCH, 'altloc%d_%s.pdb' % (n, prot))
-    with open(path, 'w') as f:
-        f.writelines(out)
+    path = os.path.join(INPUTS, 'altloc%d_%s.pdb' % (n, prot))
+    if not os.path.exists(path):
+        with open(path, 'w') as f:
+            f.writelines(out)
     return path
 
 
-def cli_case(cid, prot, opts, maxwarn_groups, pre_names, verbose=False, write_dump=None, altloc=False):
-    aa = altloc_input(prot, int(altloc)) if altloc else os.path.join(T0, prot, 'aa.pdb')
-    argv = ['-f', aa, '-x', 'cg.pdb', '-o', 'topol.top'] + opts
-    for g in maxwarn_groups:
-        argv += ['-maxwarn'] + g
-    if verbose:
-        argv.append('-v')
-    if write_dump:
-        argv += ['-write-graph', write_dump]
-    pre = {n: ('old %s\n' % n).encode() * 3 for n in pre_names}
-    r = run_cli(argv, pre)
-    specs = [[M2['maxwarn'](s) for s in g] for g in maxwarn_groups]
-    impl_left = ignore_warnings_and_count(r['counter'], specs) if r['counter'] is not None else None
-    # the error record logged by the gate itself is counted after the decision; remove it for the model input
-    entries = r['entries']
-    gate_err = 1 if (r['exited'] and not r['finalised']) else 0
-    ent_gate = []
-    for l, t, c in entries:
-        if l == logging.ERROR and t == 'general' and gate_err:
-            c -= 1
-            gate_err = 0
-        if c:
-            ent_gate.append([l, t, c])
-    impl_left_gate = leftover_oracle(ent_gate, specs)
-    # `deferred_open` is a bound method created at import time, so the individual calls cannot be
-    # intercepted without touching every writer module; the history given to the model is reconstructed
-    # from the pending table observed at the gate (one open per entry, stored mode, final contents)
-    opens = [[parse_name(n), k, h] for n, k, h in r['gate']]
-    files = [[parse_name(n), sha(c)] for n, c in pre.items()]
-    ln = line('cli', logging.WARNING, ent_gate, [[[t, c] for t, c in g] for g in specs], files, opens)
-    allowed_extra = set()
-    if write_dump:
-        allowed_extra.add(write_dump)
-    after_user = {n: sha(c) for n, c in r['after'].items() if n not in allowed_extra and not re.fullmatch(r'dssp_in_.*\.pdb', n)}
-    impl = enc_list([enc(r['code']) if isinstance(r['code'], int) else enc(str(r['code'])), enc(impl_left_gate),
-                     enc([[n, after_user[n]] for n in sorted(after_user)])])
-    # ---- oracle
-    errs, finding = [], None
-    new = sorted(set(r['after']) - set(pre))
-    changed = sorted(n for n in pre if r['after'].get(n) != pre[n])
-    if isinstance(r['code'], str):
-        errs.append('martinize2 raised %s' % r['code'])
-    if impl_left_gate:
-        if r['code'] == 0:
-            errs.append('%d warnings left after -maxwarn but exit status 0 (sys.exit(%r))' % (impl_left_gate, r['raw_code']))
-        if r['finalised']:
-            errs.append('%d warnings left after -maxwarn but DeferredFileWriter.write() was called' % impl_left_gate)
-        unexpected = [n for n in new if n not in allowed_extra]
-        if unexpected or changed:
-            if (verbose and r['code'] == 2 and not changed and unexpected
-                    and all(re.fullmatch(r'dssp_in_.*\.pdb', n) for n in unexpected)):
-                finding = 'F-C07-2'
-            errs.append('run with %d unwaived warnings (exit %s) left new files %s / changed files %s'
-                        % (impl_left_gate, r['code'], unexpected, changed))
-    else:
-        if r['code'] != 0:
-            errs.append('no warnings left after -maxwarn but exit code %s' % (r['code'],))
-        for n, k, h in r['gate']:
-            if n not in r['after'] or sha(r['after'][n]) != h:
-                errs.append('output %r does not hold what was written for it' % n)
-            if n in pre:
-                bk = first_free_backup(n, pre)
-                if r['after'].get(bk) != pre[n]:
-                    errs.append('pre-existing %r not kept byte for byte at %r' % (n, bk))
-        dests = {n for n, k, h in r['gate']}
-        for n in pre:
-            if n not in dests and r['after'].get(n) != pre[n]:
-                errs.append('pre-existing unrelated file %r changed' % n)
-        if not r['gate']:
-            errs.append('successful run wrote nothing through the deferred writer')
-    for pth, m, fin in r['inside']:
-        if fin:
-            continue
-        if re.fullmatch(r'dssp_in_.*\.pdb', pth) or pth in allowed_extra:
-            continue
-        errs.append('file %r in the run directory opened for writing (%s) before the gate: a writer bypasses the '
-                    'deferred writer' % (pth, m))
-    nwarn = sum(c for l, t, c in ent_gate if l >= logging.WARNING)
-    chk.count('cli_exit=%s' % (r['code'],))
-    chk.count('cli_warnings=%d' % min(nwarn, 3))
-    chk.count('cli_leftover=%d' % (impl_left_gate if impl_left_gate % 256 == 0 else min(impl_left_gate, 3)))
-    chk.count('cli_deferred_outputs=%d' % len(r['gate']))
-    if pre:
-        chk.count('cli_preexisting_outputs')
-    return cid, ln, impl, errs, nwarn >= 1, finding
+def chains_input(prot, chains='AB', shift=60.0):
+    """the test structure repeated once per chain letter, translated along x: several identical molecules"""
+    lines = [l for l in open(aa(prot)) if l.startswith('ATOM')]
+    out = []
+    for ci, ch in enumerate(chains):
+        for l in lines:
+            out.append(l[:21] + ch + l[22:30] + '%8.3f' % (float(l[30:38]) + shift * ci) + l[38:])
+        out.append('TER\n')
+    out.append('END\n')
+    path = os.path.join(INPUTS, 'chains%s_%s.pdb' % (chains, prot))
+    if not os.path.exists(path):
+        with open(path, 'w') as f:
+            f.writelines(out)
+    return path
+
+
+FAKE_DSSP = '''#!@PY@
+# stand-in for the DSSP executable (C07 check): coil/helix/strand by position, DSSP 2/3 output layout
+import sys
+VERSION = '@VERSION@'
+if '--version' in sys.argv:
+    print('mkdssp version ' + VERSION)
+    sys.exit(0)
+path = sys.argv[sys.argv.index('-i') + 1]
+seen = []
+for l in open(path):
+    if l.startswith(('ATOM', 'HETATM')):
+        key = (l[21], l[22:27])
+        if key not in seen:
+            seen.append(key)
+print('==== Secondary Structure Definition by the program DSSP (stand-in) ==== .')
+print('  #  RESIDUE AA STRUCTURE BP1 BP2  ACC')
+for i, (ch, rid) in enumerate(seen, 1):
+    print('%5d%5s %s A  %s' % (i, rid.strip()[:4].rjust(4), ch, ' HE'[i % 3 if len(seen) > 6 else 0]) + ' ' * 20)
+'''
+
+
+def fake_dssp(version):
+    path = os.path.join(INPUTS, 'dssp_' + version.replace('.', '_'))
+    if not os.path.exists(path):
+        with open(path, 'w') as f:
+            f.write(FAKE_DSSP.replace('@PY@', sys.executable).replace('@VERSION@', version))
+        os.chmod(path, 0o755)
+    return path
 
 
 def ffwarn_dir():
     """-ff-dir with a link for martini3001 whose `[ warning ]` section fires on two consecutive prolines; the
     warning is stored in molecule.log_entries by DoLinks and only reaches the logger (and the counter) in the
     replay loop right before the output is written"""
-    d = os.path.join(SCRATCH, 'ffdir')
+    d = os.path.join(INPUTS, 'ffdir')
     os.makedirs(os.path.join(d, 'martini3001'), exist_ok=True)
     with open(os.path.join(d, 'martini3001', 'extra.ff'), 'w') as f:
         f.write('[ link ]\nresname "PRO"\n[ atoms ]\nBB { }\n+BB { }\n[ edges ]\nBB +BB\n[ warning ]\n'
@@ -813,83 +838,428 @@ def ffwarn_dir():
     return d
 
 
-PROTS = ['mini-protein1_betasheet', 'dipro-termini', 'mini-protein2_helix', 'mini-protein3_trp-cage']
+DSSP_OK, DSSP_OLD = fake_dssp('3.0.0'), fake_dssp('9.9.9')   # 9.9.9: one 'DSSP-version' warning per call
+GO_MAP = os.path.join(VERIF, 'corpus', 'c07_trpcage_contacts.map')   # contact map of mini-protein3_trp-cage
+EMPTY_DIR = os.path.join(INPUTS, 'emptydir')
+os.makedirs(EMPTY_DIR, exist_ok=True)
+NOT_A_DIR = os.path.join(INPUTS, 'not_a_dir')
+open(NOT_A_DIR, 'w').write('x\n')
+
+
+# ---- one CLI job ----------------------------------------------------------------------------------
+def mkjob(cid, branch, inp, extra=(), x='cg.pdb', o='topol.top', maxwarn=(), pre=(), name=None, sep=False,
+          go='off', go_write=None, water_bias=False, dssp='off', v=0, graph=None, repair=None, canon=None,
+          abort=None, need_warn=False, want_left=None, cost=1.0):
+    """A CLI run.  The options that decide WHICH files are written are structured (they are the input of the
+    Lean model `outputs`); everything else is in `extra`.  abort: None, or 'usage' (argparse error, exit 2 before
+    anything is read), 'info' (-list-*: exit 0, nothing written), 'raise' (uncaught exception)."""
+    return dict(cid=cid, branch=branch, inp=inp, extra=list(extra), x=x, o=o, maxwarn=[list(g) for g in maxwarn],
+                pre=list(pre), name=name, sep=sep, go=go, go_write=go_write, water_bias=water_bias, dssp=dssp, v=v,
+                graph=graph, repair=repair, canon=canon, abort=abort, need_warn=need_warn, want_left=want_left,
+                cost=cost)
+
+
+def build_argv(j):
+    argv = []
+    if j['inp'] is not None:
+        argv += ['-f', j['inp']]
+    if j['x'] is not None:
+        argv += ['-x', j['x']]
+    if j['o'] is not None:
+        argv += ['-o', j['o']]
+    argv += j['extra']
+    if j['name'] is not None:
+        argv += ['-name', j['name']]
+    if j['sep']:
+        argv.append('-sep')
+    if j['go'] == 'internal':
+        argv.append('-go')
+    elif j['go'] != 'off':
+        argv += ['-go', j['go']]
+    if j['go_write'] is True:
+        argv.append('-go-write-file')
+    elif j['go_write']:
+        argv += ['-go-write-file', j['go_write']]
+    if j['dssp'] == 'mdtraj':
+        argv.append('-dssp')
+    elif j['dssp'] != 'off':
+        argv += ['-dssp', j['dssp']]
+    argv += ['-v'] * j['v']
+    for opt, key in (('-write-graph', 'graph'), ('-write-repair', 'repair'), ('-write-canon', 'canon')):
+        if j[key] is not None:
+            argv += [opt, j[key]]
+    if j['water_bias']:
+        argv += ['-water-bias', '-water-bias-eps', 'C:2.1', 'H:3.6']
+    for g in j['maxwarn']:
+        argv += ['-maxwarn'] + g
+    return argv
+
+
+def cli_eval(j):
+    try:
+        return cli_eval_(j)
+    except BaseException:  # noqa  (a failure of the harness itself in a worker must end in a verdict, not in a hang)
+        import traceback
+        return {'cid': j['cid'], 'ln': line('cli-harness-failure', j['cid']), 'impl': 'harness-failure', 'errs':
+                ['harness: worker failed: ' + traceback.format_exc()[-1500:]], 'nontrivial': False, 'finding': None,
+                'counts': ['cli_worker_failure'], 'use_model': False, 'facts': None, 'kind': 'failed',
+                'branch': j['branch'], 'argv': [], 'cov': {}}
+
+
+def cli_eval_(j):
+    """run one job and judge it; executed in a forked worker.  Returns plain data."""
+    argv = build_argv(j)
+    pre = {n: ('old %s\n' % n).encode() * 3 for n in j['pre']}
+    r = run_cli(argv, pre)
+    counts = []
+    specs = [[M2['maxwarn'](s) for s in g] for g in j['maxwarn']]
+    dumps = [j[k] for k in ('graph', 'repair', 'canon') if j[k] is not None]
+    reached = r['gate_calls'] > 0
+    # counter as the gate saw it; fallback (gate hook not called): the final counter minus the gate's own error record
+    if r['gate_entries'] is not None:
+        ent_gate = [e for e in r['gate_entries'] if e[2]]
+    else:
+        gate_err = 1 if (r['exited'] and not r['finalised'] and r['code'] == 2 and not j['abort']) else 0
+        ent_gate = []
+        for l, t, c in r['entries']:
+            if l == logging.ERROR and t == 'general' and gate_err:
+                c -= 1
+                gate_err = 0
+            if c:
+                ent_gate.append([l, t, c])
+    left = leftover_oracle(ent_gate, specs)
+    nwarn = sum(c for l, t, c in ent_gate if l >= logging.WARNING)
+    new = sorted(set(r['after']) - set(pre))
+    changed = sorted(n for n in pre if r['after'].get(n) != pre[n])
+    artefacts = [n for n in new if DSSP_TMP_RE.fullmatch(n)]
+    # ---- model input (`cli`: the gate on the history reconstructed from the pending table at the gate)
+    opens = [[parse_name(n), k, h] for n, k, h in r['gate']]
+    hidden = set(dumps) | set(artefacts)
+    files = [[parse_name(n), sha(c)] for n, c in pre.items() if n not in hidden]
+    ln = line('cli', logging.WARNING, ent_gate, [[[t, c] for t, c in g] for g in specs], files, opens)
+    after_user = {n: sha(c) for n, c in r['after'].items() if n not in hidden}
+    impl = enc_list([enc(r['code']) if isinstance(r['code'], int) else enc(str(r['code'])), enc(left),
+                     enc([[n, after_user[n]] for n in sorted(after_user)])])
+    use_model = j['abort'] is None and reached and not isinstance(r['code'], str)
+    # ---- oracle
+    errs, finding = [], None
+    if r['subdirs']:
+        errs.append('the run created directories %s' % r['subdirs'])
+    if r['gate_leftover'] is not None and r['gate_leftover'] != left:
+        errs.append('the gate computed %r leftover warnings, the closed form on the counter gives %d' % (r['gate_leftover'], left))
+    if j['abort'] is None:
+        if isinstance(r['code'], str):
+            errs.append('martinize2 raised %s %s' % (r['code'], r['exc']))
+        elif not reached and not r['finalised'] and r['code'] != 0:
+            errs.append('martinize2 exited with %s before the -maxwarn gate: %s' % (r['code'], r['log'][-300:]))
+    else:
+        kind = 'aborted'
+        if j['abort'] == 'raise' and not isinstance(r['code'], str):
+            errs.append('harness: the run was expected to stop on an exception, exit %r' % (r['code'],))
+        if j['abort'] == 'usage' and r['code'] != 2:
+            errs.append('harness: the run was expected to stop on a usage error (exit 2), got %r' % (r['code'],))
+        if j['abort'] == 'info' and r['code'] != 0:
+            errs.append('harness: the information-only run was expected to exit 0, got %r' % (r['code'],))
+    unexpected = [n for n in new if n not in dumps]
+    bad_changed = [n for n in changed if n not in dumps]
+    if j['abort'] is not None or (not reached and not r['finalised']):
+        kind = 'aborted'
+        if r['finalised']:
+            errs.append('a run that stopped before the gate finalised the deferred writer')
+        if unexpected or bad_changed:
+            errs.append('run stopped before the gate (exit %s) left new files %s / changed files %s'
+                        % (r['code'], unexpected, bad_changed))
+    elif left:
+        kind = 'blocked'
+        if r['code'] == 0:
+            errs.append('%d warnings left after -maxwarn but exit status 0 (sys.exit(%r))' % (left, r['raw_code']))
+        if r['finalised']:
+            errs.append('%d warnings left after -maxwarn but DeferredFileWriter.write() was called' % left)
+        if unexpected or bad_changed:
+            if (j['v'] and r['code'] == 2 and not bad_changed and unexpected
+                    and all(DSSP_TMP_RE.fullmatch(n) for n in unexpected)):
+                finding = 'F-C07-2'
+            errs.append('run with %d unwaived warnings (exit %s) left new files %s / changed files %s; requested '
+                        'debug dumps: %s' % (left, r['code'], unexpected, bad_changed, dumps))
+    else:
+        kind = 'passed'
+        if r['code'] != 0:
+            errs.append('no warnings left after -maxwarn but exit code %s' % (r['code'],))
+        if not r['finalised']:
+            errs.append('no warnings left after -maxwarn but DeferredFileWriter.write() was not called')
+        if r['left_pending']:
+            errs.append('%d entries still pending after finalisation' % r['left_pending'])
+        last = {}
+        for n, k, h in r['gate']:
+            last[n] = h
+        for n, h in last.items():
+            if n not in r['after'] or sha(r['after'][n]) != h:
+                errs.append('output %r does not hold what was written for it' % n)
+            if n in pre and n not in dumps:
+                bk = first_free_backup(n, pre)
+                if r['after'].get(bk) != pre[n]:
+                    errs.append('pre-existing %r not kept byte for byte at %r' % (n, bk))
+        for n in pre:
+            if n not in last and n not in dumps and r['after'].get(n) != pre[n]:
+                errs.append('pre-existing unrelated file %r changed' % n)
+        allowed_new = set(last) | {first_free_backup(n, pre) for n in last if n in pre} | set(dumps)
+        extra_new = [n for n in new if n not in allowed_new and not (j['v'] and DSSP_TMP_RE.fullmatch(n))]
+        if extra_new:
+            errs.append('files %s appeared that were not written through the deferred writer' % extra_new)
+        if not r['gate']:
+            errs.append('successful run wrote nothing through the deferred writer')
+    for pth, m, fin in r['inside']:
+        if fin:
+            continue
+        if DSSP_TMP_RE.fullmatch(pth) or pth in dumps:
+            continue
+        errs.append('file %r in the run directory opened for writing (%s) before the gate: a writer bypasses the '
+                    'deferred writer' % (pth, m))
+    if j['need_warn'] and not nwarn:
+        errs.append('harness: the run was built to produce a counted warning and produced none (the case no longer '
+                    'exercises what it was made for)')
+    if j['want_left'] is not None and left != j['want_left']:
+        errs.append('harness: the run was built to leave exactly %d warnings, it leaves %d' % (j['want_left'], left))
+    # CountingHandler.number_of_counts_by against the plain sums over its table
+    if r['counter'] is not None:
+        ent = r['entries']
+        for lvl in (None, logging.WARNING, logging.ERROR, logging.CRITICAL + 1):
+            for typ in [None] + sorted({t for l, t, c in ent}) + ['no-such-type']:
+                want = sum(c for l, t, c in ent if (lvl is None or l >= lvl) and (typ is None or t == typ))
+                got = r['counter'].number_of_counts_by(level=lvl, type=typ)
+                counts.append('counts_by_queries')
+                if got != want:
+                    errs.append('number_of_counts_by(level=%r, type=%r) = %r, table sums to %d' % (lvl, typ, got, want))
+    counts += ['cli_exit=%s' % (r['code'],), 'cli_warnings=%d' % min(nwarn, 3),
+               'cli_leftover=%d' % (left if left % 256 == 0 else min(left, 3)),
+               'cli_deferred_outputs=%d' % len(r['gate']), 'cli_%s' % kind, 'branch:%s/%s' % (j['branch'], kind)]
+    if pre:
+        counts.append('cli_preexisting_files')
+    if dumps:
+        counts.append('cli_debug_dumps_requested=%d' % len(dumps))
+    for n, k, h in r['gate']:
+        if n.endswith('.itp'):
+            cls = n if re.match(r'(go_|virtual_sites_)', n) else 'MOLTYPE.itp'
+        elif n.endswith('.ssd'):
+            cls = 'chain_X.ssd'
+        else:
+            cls = n
+        counts.append('deferred:' + cls)
+    facts = {'top': r['top'], 'dssp': r['dssp'], 'artefacts': artefacts, 'gate': r['gate'], 'kind': kind,
+             'after': {n: sha(c) for n, c in r['after'].items()}, 'pre': {n: sha(c) for n, c in pre.items()},
+             'ent_gate': ent_gate, 'specs': specs, 'left': left, 'code': r['code']}
+    return {'cid': j['cid'], 'ln': ln, 'impl': impl, 'errs': errs, 'nontrivial': nwarn >= 1 or bool(dumps),
+            'finding': finding, 'counts': counts, 'use_model': use_model and not finding, 'facts': facts,
+            'kind': kind, 'branch': j['branch'], 'argv': argv, 'cov': chk.worker_lines()}
+
+
+# ---- the plan ---------------------------------------------------------------------------------------
+M3 = ['-ff', 'martini3001', '-ss', 'C']
+M22 = ['-ff', 'martini22', '-ss', 'C']
+TRP, BETA, DIPRO, HELIX = aa('mini-protein3_trp-cage'), aa('mini-protein1_betasheet'), aa('dipro-termini'), aa('mini-protein2_helix')
 WARN_OPTS = {
-    'none': (['-ff', 'martini22', '-ss', 'C', '-noscfix'], 0),
-    'scfix': (['-ff', 'martini22', '-ss', 'C', '-scfix'], 2),            # general + missing-feature
-    'mutate': (['-ff', 'martini22', '-ss', 'C', '-noscfix', '-mutate', 'A-GLY999:ALA'], 1),   # general
-    'modify': (['-ff', 'martini3001', '-ss', 'C', '-noscfix', '-modify', 'XXX99:N-ter'], 1),
-    'both': (['-ff', 'martini22', '-ss', 'C', '-scfix', '-mutate', 'A-GLY999:ALA'], 3),
+    'none': (M22 + ['-noscfix'], 0),
+    'scfix': (M22 + ['-scfix'], 2),            # general + missing-feature
+    'mutate': (M22 + ['-noscfix', '-mutate', 'A-GLY999:ALA'], 1),   # general
+    'modify': (M3 + ['-noscfix', '-modify', 'XXX99:N-ter'], 1),
+    'both': (M22 + ['-scfix', '-mutate', 'A-GLY999:ALA'], 3),
     # two warning types with different counts: a blanket allowance must be consumed across them
-    'mutate2': (['-ff', 'martini22', '-ss', 'C', '-noscfix', '-mutate', 'A-GLY998:ALA', '-mutate', 'A-GLY999:ALA'], 2),
-    'both2': (['-ff', 'martini22', '-ss', 'C', '-scfix', '-mutate', 'A-GLY998:ALA', '-mutate', 'A-GLY999:ALA'], 4),
+    'mutate2': (M22 + ['-noscfix', '-mutate', 'A-GLY998:ALA', '-mutate', 'A-GLY999:ALA'], 2),
+    'both2': (M22 + ['-scfix', '-mutate', 'A-GLY998:ALA', '-mutate', 'A-GLY999:ALA'], 4),
 }
-cli_plan = [
+jobs = []
+
+
+def J(branch, inp, extra=(), **k):
+    cid = 'cli-%d-%s' % (len(jobs), branch)
+    jobs.append(mkjob(cid, branch, inp, extra, **k))
+
+
+# (1) the gate: warning-raising options x -maxwarn on the default outputs (as before)
+for kind, mw, pre, kw in [
     ('none', [], ['cg.pdb', '#cg.pdb.1#', 'molecule_0.itp', 'other.txt'], {}),
     ('scfix', [], ['cg.pdb', 'topol.top'], {}),
     ('scfix', [['1']], [], {}),                                    # leftover exactly 1
     ('scfix', [['2']], ['topol.top', '#topol.top.1#', '#topol.top.2#'], {}),
     ('scfix', [['general'], ['missing-feature:1']], [], {}),
     ('mutate', [['missing-feature']], ['cg.pdb'], {}),           # waiver of another type: leftover 1
-    ('scfix', [], [], {'write_dump': 'graph_dump.pdb'}),
     ('both', [['2']], ['cg.pdb'], {}),                            # blanket smaller than the total over two types
     ('both2', [['3']], [], {}),
-    # first-counted type smaller than the blanket allowance, total above it (1 pdb-alternate + 2 general, -maxwarn 2)
-    ('mutate2', [['2']], [], {'altloc': True}),
-    # a warning declared in a force-field `[ warning ]` section (type 'model'): counted only after the replay of
-    # molecule.log_entries, i.e. the gate must be evaluated after that loop
-    # exactly 256 warnings left (300 pdb-alternate, -maxwarn 44): an exit status derived from the count wraps to 0
-    ('altloc256', [['44']], ['cg.pdb'], {'prot': 'dipro-termini', 'altloc': 300}),
-    ('ffwarn', [], ['cg.pdb'], {'prot': 'dipro-termini'}),
-    ('ffwarn', [['1']], ['cg.pdb'], {'prot': 'dipro-termini'}),
-]
-rng = chk.rng('cli')
-if chk.thorough:
-    for i in range(20):
-        kind = rng.choice(list(WARN_OPTS))
-        nw = WARN_OPTS[kind][1]
-        mw = rng.choice([[], [[str(rng.randint(0, 3))]], [['general']], [['general:%d' % rng.randint(0, 2)]],
-                         [['missing-feature'], [str(rng.randint(0, 2))]], [['general', 'missing-feature']]])
-        pre = rng.sample(['cg.pdb', 'topol.top', 'molecule_0.itp', '#cg.pdb.1#', '#topol.top.1#', 'x.dat'], rng.randint(0, 4))
-        cli_plan.append((kind, mw, pre, {'prot': rng.choice(PROTS)}))
-else:
-    # one seeded extra run so that different seeds exercise different combinations
-    kind = rng.choice(['scfix', 'mutate', 'both'])
-    cli_plan.append((kind, rng.choice([[[str(rng.randint(0, 3))]], [['general:%d' % rng.randint(0, 2)]], [['general']]]),
-                     rng.sample(['cg.pdb', 'topol.top', 'molecule_0.itp', '#cg.pdb.1#'], 2), {'prot': rng.choice(PROTS)}))
-try:
-    import mdtraj  # noqa
-    cli_plan.append(('dssp-v', [], ['cg.pdb'], {}))
-except Exception:  # noqa
-    chk.notes.append('mdtraj not importable: the -dssp -v combination (F-C07-2) was not run')
+]:
+    J('gate-' + kind, BETA, WARN_OPTS[kind][0], maxwarn=mw, pre=pre, need_warn=WARN_OPTS[kind][1] > 0, **kw)
+# first-counted type smaller than the blanket allowance, total above it (1 pdb-alternate + 2 general, -maxwarn 2)
+J('gate-altloc', altloc_input(PROTS[0], 1), WARN_OPTS['mutate2'][0], maxwarn=[['2']], need_warn=True, want_left=1)
+# exactly 256 warnings left (300 pdb-alternate, -maxwarn 44): an exit status derived from the count wraps to 0
+J('gate-altloc256', altloc_input('dipro-termini', 300), ['-ff', 'martini3001', '-nt', '-noscfix', '-ss', 'C'],
+  maxwarn=[['44']], pre=['cg.pdb'], need_warn=True, want_left=256)
+# a warning declared in a force-field `[ warning ]` section (type 'model'): counted only after the replay of
+# molecule.log_entries, i.e. the gate must be evaluated after that loop
+FFW = ['-ff', 'martini3001', '-nt', '-noscfix', '-ss', 'C', '-ff-dir', ffwarn_dir()]
+J('gate-ffwarn', DIPRO, FFW, pre=['cg.pdb'], need_warn=True)
+J('gate-ffwarn', DIPRO, FFW, maxwarn=[['1']], pre=['cg.pdb'], need_warn=True)
 
-cli_rows = []
-for i, (kind, mw, pre, kw) in enumerate(cli_plan):
-    kw = dict(kw)
-    prot = kw.pop('prot', PROTS[0])
-    if kind == 'dssp-v':
-        row = cli_case('cli-%d-dssp-v' % i, prot, ['-ff', 'martini22', '-dssp', '-scfix'], mw, pre, verbose=True)
-    elif kind == 'altloc256':
-        row = cli_case('cli-%d-altloc256' % i, prot, ['-ff', 'martini3001', '-nt', '-noscfix', '-ss', 'C'], mw, pre, **kw)
-        left = re.match(r'\[ \S+ (\S+) ', row[2])
-        if not left or left.group(1) != '256':
-            row = row[:3] + (row[3] + ['the altloc256 CLI case does not leave exactly 256 warnings any more (got %s)'
-                                       % (left.group(1) if left else '?')],) + row[4:]
-    elif kind == 'ffwarn':
-        row = cli_case('cli-%d-ffwarn' % i, prot, ['-ff', 'martini3001', '-nt', '-noscfix', '-ss', 'C',
-                                                  '-ff-dir', ffwarn_dir()], mw, pre, **kw)
-        if not row[4]:
-            row = row[:3] + (row[3] + ['the force-field [ warning ] section did not produce a counted warning '
-                                       '(the ffwarn CLI case no longer exercises the log-entry replay)'],) + row[4:]
+# (2) every file-writing branch of `entry`, once with an unwaived warning (-scfix: one 'general' warning with
+#     martini3001) and once with the warning waived or absent
+W1 = ['-scfix']            # + M3: exactly one warning
+
+
+def both_ways(branch, inp, extra=(), clean_pre=(), warn_pre=(), waive=True, **k):
+    J(branch, inp, list(extra) + W1, pre=warn_pre, need_warn=True, **k)
+    if waive:
+        J(branch, inp, list(extra) + W1, maxwarn=[['1']], pre=clean_pre, need_warn=True, **k)
     else:
-        row = cli_case('cli-%d-%s' % (i, kind), prot, WARN_OPTS[kind][0], mw, pre, **kw)
-    cli_rows.append(row)
-cli_models = chk.drv.ask([r[1] for r in cli_rows]) if chk.lean_ok else [None] * len(cli_rows)
-for (cid, ln, impl, errs, nontriv, finding), mo in zip(cli_rows, cli_models):
-    if finding:
-        # the model has no DSSP dump; the known finding is judged by the oracle only
-        mo = None
-    chk.case(cid, ln, impl, mo, errs, nontriv, finding=finding)
+        J(branch, inp, list(extra), pre=clean_pre, **k)
+
+
+CH2 = chains_input('dipro-termini', 'AB')
+both_ways('x-gro', DIPRO, M3, x='out.gro', clean_pre=['out.gro'])
+both_ways('no-x', DIPRO, M3, x=None, waive=False)                         # the structure goes to the file 'None'
+both_ways('no-o', DIPRO, M3, o=None, clean_pre=['molecule_0.itp'], warn_pre=['cg.pdb'])
+both_ways('x-equals-o', DIPRO, M3, x='same.out', o='same.out', waive=False)
+both_ways('go-internal-write', TRP, M3, go='internal', go_write=True, clean_pre=['contact_map_martinize.out', 'go_nbparams.itp'],
+          warn_pre=['go_atomtypes.itp'], cost=1.6)
+both_ways('go-internal-write-named', TRP, M3, go='internal', go_write='cm.out', name='prot', waive=False, cost=1.6)
+both_ways('go-internal', TRP, M3, go='internal', cost=1.4)
+both_ways('go-file', TRP, M3, go=GO_MAP, clean_pre=['molecule.itp', '#molecule.itp.1#'], cost=1.2)
+both_ways('go-water-bias', TRP, M3, go=GO_MAP, water_bias=True, waive=False, cost=1.3)
+both_ways('water-bias', TRP, M3, water_bias=True, clean_pre=['virtual_sites_atomtypes.itp'], warn_pre=['virtual_sites_nonbond_params.itp'])
+both_ways('chains', CH2, M3, waive=False)
+both_ways('sep', CH2, M3, sep=True, name='pp', clean_pre=['pp_1.itp'])
+both_ways('merge', CH2, M3 + ['-merge', 'A,B'])
+both_ways('merge-all', CH2, M3 + ['-merge', 'all'], waive=False)
+both_ways('cys', TRP, M3 + ['-cys', '0.5'], waive=False)
+both_ways('cys-none', TRP, M3 + ['-cys', 'none', '-resid', 'input'])
+both_ways('dumps-all', DIPRO, M3, graph='g.pdb', repair='r.pdb', canon='c.pdb', clean_pre=['g.pdb'], warn_pre=['r.pdb', 'cg.pdb'])
+both_ways('dump-graph', DIPRO, M3, graph='graph_dump.pdb', waive=False)
+both_ways('dump-repair', DIPRO, M3, repair='rep.pdb', waive=False)
+both_ways('dump-canon', DIPRO, M3, canon='can.pdb')
+both_ways('dssp-exe', TRP, ['-ff', 'martini3001'], dssp=DSSP_OK, clean_pre=['chain_A.ssd'], warn_pre=['chain_A.ssd'])
+both_ways('dssp-exe-chains', chains_input('mini-protein3_trp-cage', 'AB'), ['-ff', 'martini3001'], dssp=DSSP_OK, waive=False, cost=1.5)
+both_ways('dssp-exe-verbose', TRP, ['-ff', 'martini3001'], dssp=DSSP_OK, v=1)
+# the warning comes from run_dssp itself (unsupported version), after which its savefile is opened
+J('dssp-exe-version-warning', TRP, ['-ff', 'martini3001'], dssp=DSSP_OLD, need_warn=True, want_left=1)
+J('dssp-exe-version-warning', TRP, ['-ff', 'martini3001'], dssp=DSSP_OLD, maxwarn=[['DSSP-version']], need_warn=True, want_left=0)
+if HAVE_MDTRAJ:
+    both_ways('dssp-mdtraj', TRP, ['-ff', 'martini3001'], dssp='mdtraj')
+    both_ways('dssp-mdtraj-verbose', BETA, ['-ff', 'martini3001'], dssp='mdtraj', v=1, warn_pre=['cg.pdb'])   # F-C07-2
+both_ways('posres', DIPRO, M3 + ['-p', 'backbone', '-pf', '500'], waive=False)
+both_ways('posres-all', DIPRO, M3 + ['-p', 'all'])
+both_ways('elastic', TRP, M3 + ['-elastic', '-eunit', 'chain'], waive=False)
+both_ways('elastic-all', CH2, M3 + ['-elastic', '-eunit', 'all', '-eb', 'BB'], waive=False)
+both_ways('elastic-region', TRP, M3 + ['-elastic', '-eunit', '1:10,11:20'], waive=False)
+J('elnedyn', TRP, ['-ff', 'elnedyn22', '-ss', 'C'], need_warn=True)        # no scfix feature: missing-feature warning
+J('elnedyn', TRP, ['-ff', 'elnedyn22', '-ss', 'C', '-noscfix'])
+J('extdih', TRP, ['-ff', 'martini3001', '-ss', 'E', '-ed'], need_warn=True)
+J('extdih', TRP, ['-ff', 'martini3001', '-ss', 'E', '-ed'], maxwarn=[['missing-feature']], need_warn=True)
+J('collagen', DIPRO, ['-ff', 'martini3001', '-collagen'], need_warn=True)
+J('collagen', DIPRO, ['-ff', 'martini3001', '-collagen'], maxwarn=[['missing-feature:1']], need_warn=True)
+J('idr-tune', TRP, M22 + ['-noscfix', '-idr-tune', '-id-regions', '1:5'], need_warn=True)
+J('idr-tune', TRP, M3 + ['-idr-tune', '-id-regions', '1:5'])
+both_ways('termini-ignore', DIPRO, M3 + ['-nter', 'N-ter', '-cter', 'C-ter', '-ignore', 'HOH', '-map-dir', EMPTY_DIR,
+                                      '-ff-dir', EMPTY_DIR], waive=False)
+# (3) runs that stop before the gate: nothing may appear (requested dumps aside)
+J('abort-merge-conflict', CH2, M3 + ['-merge', 'all', '-merge', 'A,B'], abort='raise', graph='g.pdb', pre=['cg.pdb'])
+J('abort-elastic-go', TRP, M3 + ['-elastic'], go='internal', abort='usage', pre=['cg.pdb'])
+J('abort-unknown-ff', DIPRO, ['-ff', 'no-such-ff', '-ss', 'C'], abort='raise', graph='g.pdb')
+J('abort-unknown-from', DIPRO, ['-from', 'no-such-ff', '-ss', 'C'], abort='raise')
+J('abort-bad-ff-dir', DIPRO, M3 + ['-ff-dir', NOT_A_DIR], abort='raise')
+J('abort-missing-ff-dir', DIPRO, M3 + ['-ff-dir', os.path.join(INPUTS, 'no-such-dir')], abort='raise')
+J('abort-gro-model', os.path.join(INPUTS, 'absent.gro'), M3 + ['-model', '2'], abort='usage', pre=['topol.top'])
+J('abort-bad-map-dir', DIPRO, M3 + ['-map-dir', NOT_A_DIR], abort='raise')
+J('abort-bad-eunit', TRP, M3 + ['-elastic', '-eunit', '1:2:3'], abort='raise', canon='c.pdb')
+J('abort-list-ff', None, ['-list-ff'], abort='info', x=None, o=None, pre=['cg.pdb'])
+J('abort-list-blocks', None, ['-list-blocks'], abort='info', x=None, o=None)
+
+rng = chk.rng('cli')
+
+
+def random_job(i):
+    """a random combination of the options that decide the set of files, of a warning source and of -maxwarn"""
+    ff = rng.choice(['martini3001', 'martini22'])
+    inp = aa(rng.choice(PROTS))
+    k = {}
+    r = rng.random()
+    if r < 0.2:
+        inp, ff = TRP, 'martini3001'
+        k['go'] = rng.choice(['internal', GO_MAP])
+        if k['go'] == 'internal' and rng.random() < 0.6:
+            k['go_write'] = rng.choice([True, 'contacts.out'])
+        k['water_bias'] = rng.random() < 0.3
+        k['cost'] = 1.5
+    elif r < 0.3:
+        ff = 'martini3001'
+        k['water_bias'] = True
+    elif r < 0.45:
+        inp = chains_input(rng.choice(['dipro-termini', 'mini-protein3_trp-cage']), rng.choice(['AB', 'ABC']))
+        k['sep'] = rng.random() < 0.5
+    extra = ['-ff', ff]
+    if inp.startswith(INPUTS) and rng.random() < 0.4:
+        extra += ['-merge', rng.choice(['A,B', 'all'])]
+    src = rng.choice(['none', 'scfix', 'mutate', 'mutate2', 'scfix+mutate'])
+    if 'scfix' in src:
+        extra.append('-scfix')
+    elif ff == 'martini22':
+        extra.append('-noscfix')
+    if 'mutate' in src:
+        extra += ['-mutate', 'A-GLY999:ALA']
+    if src == 'mutate2':
+        extra += ['-mutate', 'A-GLY998:ALA']
+    if rng.random() < 0.15:
+        k['dssp'] = rng.choice([DSSP_OK, DSSP_OLD] + (['mdtraj'] if HAVE_MDTRAJ else []))
+        k['v'] = int(rng.random() < 0.3)
+    else:
+        extra += ['-ss', 'C']
+    if rng.random() < 0.3:
+        k['name'] = rng.choice(['prot', 'mol.x', 'm'])
+    if rng.random() < 0.25:
+        k['x'] = rng.choice([None, 'out.gro', 'structure'])
+    if rng.random() < 0.2:
+        k['o'] = rng.choice([None, 'sys.top'])
+    for key in ('graph', 'repair', 'canon'):
+        if rng.random() < 0.15:
+            k[key] = rng.choice(['dump_%s.pdb' % key, 'd.pdb'])
+    mw = rng.choice([[], [[str(rng.randint(0, 3))]], [['general']], [['general:%d' % rng.randint(0, 2)]],
+                     [['missing-feature'], [str(rng.randint(0, 2))]], [['general', 'missing-feature']]])
+    names = ['cg.pdb', 'topol.top', 'molecule_0.itp', '#cg.pdb.1#', '#topol.top.1#', 'x.dat', 'go_nbparams.itp',
+             'molecule.itp', 'chain_A.ssd', 'd.pdb']
+    J('random', inp, extra, maxwarn=mw, pre=rng.sample(names, rng.randint(0, 4)), **k)
+
+
+for i in range(60 if chk.thorough else 3):
+    random_job(i)
+
+# ---- execute in forked workers (each run has a scratch directory of its own) -----------------------
+NWORKERS = max(1, int(os.environ.get('VERIF_C07_WORKERS', '8')))
+order = sorted(range(len(jobs)), key=lambda i: -jobs[i]['cost'])
+ctx = multiprocessing.get_context('fork')
+t_cli = time.time()
+results = {}
+with ctx.Pool(min(NWORKERS, len(jobs))) as pool:
+    for res in pool.imap_unordered(cli_eval, [jobs[i] for i in order], chunksize=1):
+        results[res['cid']] = res
+chk.extra['cli_wall_s'] = round(time.time() - t_cli, 1)
+chk.extra['cli_workers'] = NWORKERS
+cli_rows = [results[j['cid']] for j in jobs]
+for r in cli_rows:
+    chk.merge_worker_lines(r['cov'])
+    for key in r['counts']:
+        chk.count(key)
+cli_models = chk.drv.ask([r['ln'] for r in cli_rows]) if chk.lean_ok else [None] * len(cli_rows)
+for r, mo in zip(cli_rows, cli_models):
+    chk.case(r['cid'], r['ln'], r['impl'], mo if r['use_model'] else None, r['errs'], r['nontrivial'], finding=r['finding'])
+
+# every file-writing branch must have been seen both blocked by the gate and passed
+seen = {}
+for r in cli_rows:
+    seen.setdefault(r['branch'], set()).add(r['kind'])
+matrix_errs = []
+for b, kinds in sorted(seen.items()):
+    if b.startswith(('abort-', 'gate-')) or b == 'random':
+        continue
+    if not {'blocked', 'passed'} <= kinds:
+        matrix_errs.append('harness: branch %s was only seen %s (needs a blocked and a passed run)' % (b, sorted(kinds)))
+chk.extra['cli_branches'] = {b: sorted(k) for b, k in sorted(seen.items())}
+chk.case('cli-branch-matrix', line('branches', sorted(seen)), 'ok' if not matrix_errs else 'incomplete', None, matrix_errs, True)
 
 shutil.rmtree(SCRATCH, ignore_errors=True)
 chk.finish()
